@@ -350,6 +350,30 @@ func classify(pkgs []*packages.Package) map[*types.Var]bool {
 								callee, _ = info.Uses[fun.Sel].(*types.Func)
 							}
 						}
+						// rule (vi): a reference-typed view of a global (G[:], G[a:b], or G itself when it is a
+						// slice, map or pointer) handed to a function outside the module may be written
+						// through there (io.ReadFull(r, G[:]), copy-like helpers, sort.Strings(G) ...)
+						if callee == nil || callee.Pkg() == nil || !strings.HasPrefix(callee.Pkg().Path(), "github.com/tsawler/tabula") {
+							for _, a := range x.Args {
+								_, sliced := a.(*ast.SliceExpr)
+								refTyped := false
+								if t := info.TypeOf(a); t != nil {
+									switch t.Underlying().(type) {
+									case *types.Slice, *types.Map, *types.Pointer:
+										refTyped = true
+									}
+								}
+								if sliced || refTyped {
+									if id := rootIdent(info, a); id != nil {
+										if v := pkgVar(info, id); v != nil && !safeTypes[v.Type().String()] {
+											if _, isBuiltin := x.Fun.(*ast.Ident); !isBuiltin || callee != nil {
+												mark(p, id, "extern-arg", x.Pos())
+											}
+										}
+									}
+								}
+							}
+						}
 						if callee != nil && fobj != nil {
 							am := map[int]int{}
 							if recvExpr != nil {
